@@ -227,6 +227,16 @@ def f56():
 
 case("F56 lazy results that differ only in the engine, computed together", f56, lambda r: r is True)
 
+# F57
+def f57():
+    bins = pd.date_range("2001-01-01", periods=4, freq="D")
+    by = np.array(["2001-01-01T12", "2001-01-02T12", "2001-01-02T13", "2001-01-03T01"], dtype="M8[ns]")
+    return groupby_reduce(np.ones(4), by, expected_groups=bins, isbin=True, func="count")[0].tolist()
+
+
+case("F57 datetime labels and bin edges of different units", f57, lambda r: r == [1, 2, 1])
+case("F57 bins closed on neither side", lambda: groupby_reduce(np.ones(5), np.array([0.0, 0.5, 1.0, 1.5, 2.0]), expected_groups=pd.IntervalIndex.from_breaks([0.0, 1.0, 2.0], closed="neither"), func="count")[0].tolist(), lambda r: r == [1, 1])
+
 bad = 0
 for name, verdict in results:
     print(f"{name:55s} {verdict}")
